@@ -1222,7 +1222,7 @@ def r_nstring_cmp(ctx, toks):
         if t.k == 'id' and t.t in ctx.env and ctx.env[t.t][0] == 'nstring' and i + 2 < n and toks[i + 1].t in ('!=', '==') \
                 and (not out or out[-1].t not in ('.', '->')):
             rhs = toks[i + 2]
-            if rhs.k in ('str', 'id') and (i + 3 >= n or toks[i + 3].t in (')', '&&', '||', ';')):
+            if rhs.k in ('str', 'id') and not (rhs.k == 'id' and rhs.t in ctx.env and ctx.env[rhs.t][0] == 'nstring') and (i + 3 >= n or toks[i + 3].t in (')', '&&', '||', ';')):
                 fn = 'nstring_ne_cstr' if toks[i + 1].t == '!=' else 'nstring_eq_cstr'
                 out.extend([Tok('id', fn, t.ws), P('(', '')] + addr(ctx, t.t) + [P(',', ''), rhs, P(')', '')])
                 i += 3; fire(ctx, 'string-compare'); continue
